@@ -12,12 +12,25 @@ ApplyPairs(kv, ps, i) == IF i > Len(ps) THEN kv ELSE ApplyPairs([kv EXCEPT ![ps[
 
 KFail(cond, rule) == IF cond THEN <<rule>> ELSE <<>>
 
-KCheck(kv, e) ==
-  IF e.st # "OK" THEN <<"ALL,C18:no-reply-" \o e.st>>
-  ELSE IF e.op = "put" THEN KFail(~e.ok, "C18:put-failed")
-  ELSE KFail(~e.ok, "C18:get-failed") \o KFail(e.val # kv[e.key], "C18:get-returns-other-than-latest-put")
+JournalCap == 511    \* a put of more distinct blocks than the journal holds may be refused as a whole
 
-KNext(kv, e) == IF e.op = "put" /\ e.ok /\ e.st = "OK" THEN ApplyPairs(kv, e.pairs, 1) ELSE kv
+InRange(k, lo, hi) == k >= lo /\ k < hi
+PutKeys(e) == {e.pairs[i][1] : i \in 1..Len(e.pairs)}
+
+(* lo..hi-1 is the valid key range. An out-of-range key must be refused (kvs panics by design) without effect. *)
+KCheck(kv, e, lo, hi) ==
+  IF e.op = "put" THEN
+       IF \E k \in PutKeys(e) : ~InRange(k, lo, hi)
+       THEN KFail(e.st = "OK" /\ e.ok, "C18:put-with-key-outside-the-store-accepted")
+       ELSE IF e.st # "OK" THEN <<"ALL,C18:no-reply-" \o e.st>>
+       ELSE KFail(~e.ok /\ Cardinality(PutKeys(e)) <= JournalCap, "C18:put-failed")
+  ELSE IF ~InRange(e.key, lo, hi)
+       THEN KFail(e.st = "OK" /\ e.ok /\ e.key # hi, "C18:get-with-key-outside-the-store-accepted")  \* key = hi: latitude (see DESIGN)
+       ELSE IF e.st # "OK" THEN <<"ALL,C18:no-reply-" \o e.st>>
+       ELSE KFail(~e.ok, "C18:get-failed") \o KFail(e.val # kv[e.key], "C18:get-returns-other-than-latest-put")
+
+KNext(kv, e, lo, hi) ==
+  IF e.op = "put" /\ e.ok /\ e.st = "OK" /\ \A k \in PutKeys(e) : InRange(k, lo, hi) THEN ApplyPairs(kv, e.pairs, 1) ELSE kv
 
 KDumpOK(kv, d) == \A i \in 1..Len(d.kv) : d.kv[i][1] \in DOMAIN kv /\ kv[d.kv[i][1]] = d.kv[i][2]
 =============================================================================
